@@ -405,6 +405,13 @@ fn waist_check(ctx: &mut Ctx, spdc: &SPDC, route: &str, det: &str) {
     ("signal", spdc.signal.clone().as_beam(), *(spdc.signal_waist_position / M)),
     ("idler", spdc.idler.clone().as_beam(), *(spdc.idler_waist_position / M)),
   ] {
+    // quantifier domain: wavelengths inside the crystal's window (an optimum idler derived from a re-tuned signal may leave it)
+    let (lo, hi) = super::index::window(&cs.crystal);
+    let bl = *(beam.vacuum_wavelength() / M);
+    if !(bl >= lo && bl <= hi) {
+      ctx.count(&format!("waist/outside-window={}", who));
+      continue;
+    }
     let nz = *cs.index_along(beam.vacuum_wavelength(), zdir, beam.polarization());
     let expect = -len / (2.0 * nz);
     ctx.s(
